@@ -221,6 +221,7 @@ func init() {
 			{Name: "sizes", TShards: 6, Run: c02Sizes},
 			{Name: "prefixes", Run: prefixUnit("fastq", false, 0)},
 			{Name: "edges", Run: edgeUnit("fastq")},
+			{Name: "lexicon", TShards: 4, Run: lexiconUnit("fastq")},
 			{Name: "fieldlens", TShards: 2, Run: lengthUnit("fastq")},
 			{Name: "parallel", Race: true, Run: codecParallel("fastq")},
 			{Name: "histories", Run: codecHistories("fastq")},
